@@ -47,7 +47,8 @@ def hunkMatchesAt (content : List Line) (h : Hunk) (iw : Bool) (pf sf : Nat) (li
 /-- positions probed for one fuzz value, in the code's order: forward from `searchStart` to the end of
     the file, then backward from `searchStart - 1` down to `minLine`. -/
 def candidates (searchStart minLine size : Nat) : List Nat :=
-  List.range' searchStart (size - searchStart) ++ (List.range' minLine (searchStart - minLine)).reverse
+  -- (forward up to and including the very end of the file: D109)
+  List.range' searchStart (size + 1 - searchStart) ++ (List.range' minLine (searchStart - minLine)).reverse
 
 /-- `search_start = max(min_line, min(offset_guess, content_size))` -/
 def searchStart (guess : Int) (minLine size : Nat) : Nat :=
